@@ -3,7 +3,7 @@ from __future__ import annotations
 
 import numpy as np
 
-from vf import gen
+from vf import gen, plumbing
 
 PID = "C13"
 ANCHORS = ["pyoma2.functions.fdd:SD_est"]
@@ -19,10 +19,51 @@ ASSUMPTIONS = ["independent Welch: Hann (periodic), per-segment mean removal, on
                "delay tolerances are the ones the property states (5 % every line for 'per', 30 % median for 'cor')"]
 
 
+PLUMB_CLASSES = ['FDD', 'EFDD', 'pLSCF']
+PLUMB_FIELDS = ['freq', 'Sy']
+REQUIRED_MONITORS = list(REQUIRED_MONITORS) + ["class-settings@run"] + [f"plumbing:{s_}" for s_ in plumbing.SCENARIOS]
+REQUIRED_STATES = list(REQUIRED_STATES) + ["class run with some settings left at their defaults", "class run with all settings given"] + [f"plumbing scenario {s_}" for s_ in plumbing.SCENARIOS]
+
+
 def cases(tier, seed):
+    return _cases(tier, seed) + plumbing.cases(len(plumbing.SCENARIOS) * len(PLUMB_CLASSES) * (1 if tier == "quick" else 6), PLUMB_CLASSES)
+
+
+def _cases(tier, seed):
     n1, n2, n3, n4 = (120, 6, 24, 40) if tier == "quick" else (2500, 60, 400, 600)
     return ([{"cls": "welch", "k": k} for k in range(n1)] + [{"cls": "parseval", "k": k} for k in range(n2)]
-            + [{"cls": "delay", "k": k} for k in range(n3)] + [{"cls": "sinus", "k": k} for k in range(n4)])
+            + [{"cls": "delay", "k": k} for k in range(n3)] + [{"cls": "sinus", "k": k} for k in range(n4)]
+            + [{"cls": "class_settings", "k": k} for k in range(12 if tier == "quick" else 120)])
+
+
+def run_class_settings(ctx, case, rng):
+    from pyoma2.algorithms import EFDD, FDD, FSDD, pLSCF
+    from pyoma2.functions import fdd
+    from pyoma2.setup import SingleSetup
+
+    nch = int(rng.integers(2, 5))
+    fs = float(rng.choice([50.0, 100.0, 128.0]))
+    data, *_ = gen.sim_response(rng, nch, 5000, fs, m=2)
+    cls = [FDD, EFDD, FSDD, pLSCF][case["k"] % 4]
+    # which of the settings the user spells out: none / some / all (the others keep the documented defaults of the class)
+    full = dict(nxseg=int(rng.choice([128, 256, 512])), method_SD=str(rng.choice(["per", "cor"])), pov=float(rng.choice([0.0, 0.25, 0.5])))
+    given = {k: v for k, v in full.items() if rng.random() < (0.0, 0.5, 1.0)[case["k"] % 3]}
+    kw = dict(given, **({"ordmax": 4} if cls is pLSCF else {}))
+    a = cls(name="a", **kw) if kw else cls(name="a", nxseg=1024)
+    ss = SingleSetup(data, fs)
+    ss.add_algorithms(a)
+    ss.run_all()
+    rp = a.run_params
+    ctx.ev("class-settings@run")
+    for k, v in given.items():
+        ctx.check(getattr(rp, k) == v, f"class:setting_not_recorded:{k}", lambda: f"{cls.__name__}({k}={v!r}): run_params.{k} = {getattr(rp, k)!r}")
+    f, S = fdd.SD_est(data.T, data.T, 1 / fs, rp.nxseg, method=rp.method_SD, pov=rp.pov)
+    r = a.result
+    ok = np.shape(r.Sy) == np.shape(S) and np.allclose(r.Sy, S, rtol=1e-9, atol=1e-12 * np.max(np.abs(S))) and np.allclose(r.freq, f, rtol=1e-12, atol=0)
+    ctx.check(ok, "class:stored_spectrum_not_the_estimate_for_the_recorded_settings",
+              lambda: f"{cls.__name__} (settings given: {sorted(given)}): result.Sy / result.freq are not SD_est(data, data, dt, nxseg={rp.nxseg}, method={rp.method_SD!r}, pov={rp.pov})")
+    ctx.state("class run with some settings left at their defaults" if len(given) < 3 else "class run with all settings given")
+    ctx.nontrivial(("class_settings", cls.__name__, tuple(sorted(given.items()))))
 
 
 def welch_ref(x, y, fs, nx, nov):
@@ -253,5 +294,9 @@ def run_sinus(ctx, rng):
 
 
 def run_case(ctx, case):
+    if case["cls"] == "plumbing":
+        return plumbing.run_case(ctx, case, gen.rng_of(case), PLUMB_FIELDS)
+    if case["cls"] == "class_settings":
+        return run_class_settings(ctx, case, gen.rng_of(case))
     rng = gen.rng_of(case)
     {"welch": run_welch, "parseval": run_parseval, "delay": run_delay, "sinus": run_sinus}[case["cls"]](ctx, rng)
